@@ -17,7 +17,28 @@ RSP_K21 = ('MSH|^~\\&|SENDING APP|SENDING FAC|RECEIVING APP|RECEIVING FAC|201404
            'PID|1||10101109091948^^^GATEWAY&1.3.6.1.4.1.21367.2011.2.5.17&ISO||JOHN^SMITH^^^^^A||19690113|M|||VIA DELLE VIE^^CAGLIARI^^^ITA^H^^092009||||||||||||CAGLIARI|||\r')
 
 
+ZDTS = ['CX', 'XPN', 'CE', 'HD', 'XAD', 'XTN', 'EI', 'PL', 'CWE', 'XCN']
+
+
+def make_zfield_item(rng, i):
+    """a Z segment with one field of a complex datatype, in a random version: the datatype structures
+    (required components, counts) differ between versions"""
+    from models import tables as T
+    version = rng.choice(T.VERSIONS)
+    dts = [d for d in ZDTS if T.datatype_struct(version, d)]
+    dt = rng.choice(dts)
+    n = len(T.datatype_struct(version, dt))
+    parts = []
+    for j in range(min(n, rng.choice([1, 2, 3, 5]))):
+        parts.append('z%d%d' % (i, j) if rng.random() < 0.6 else '')
+    if not any(parts):
+        parts[-1] = 'z%d' % i
+    return {'kind': 'zfield', 'version': version, 'dt': dt, 'text': '^'.join(parts), 'ref': 'zfield', 'edits': [dt, version]}
+
+
 def make_item(rng, i):
+    if rng.random() < 0.3:
+        return make_zfield_item(rng, i)
     lines = (RSP_K21 % ('c%d' % i)).rstrip('\r').split('\r')
     edits = []
     for _ in range(rng.choice([0, 0, 1, 1, 2])):
@@ -57,6 +78,16 @@ def _reports(arg):
     for idx in order:
         it = items[idx]
         try:
+            if it.get('kind') == 'zfield':
+                from hl7apy.core import Segment, Field
+                seg = Segment('ZIN', version=it['version'], validation_level=2)
+                fld = Field('ZIN_1', datatype=it['dt'], version=it['version'], validation_level=2)
+                fld.value = it['text']
+                seg.add(fld)
+                r = seg.validate(return_errors=True)
+                out[idx] = [bool(r.is_valid), sorted(canon_text(str(x)) for x in r.errors),
+                            sorted(canon_text(str(x)) for x in r.warnings)]
+                continue
             if it['ref'] == 'mp':
                 m = parse_message(it['text'], message_profile=mp)
             elif it['ref'] == 'std_nogroups':
